@@ -165,7 +165,15 @@ func (e *Env) Restart() error {
 
 // Barrier passes the event-loop barrier (k PING round trips on the witness).
 func (e *Env) Barrier() error {
-	return e.W.Barrier(8, 15*time.Second)
+	err := e.W.Barrier(8, 15*time.Second)
+	if err != nil {
+		// give the exit of a dying proxy time to be noticed, so that callers
+		// can tell "proxy died" from "harness trouble"
+		for i := 0; i < 20 && e.P.Alive(); i++ {
+			time.Sleep(50 * time.Millisecond)
+		}
+	}
+	return err
 }
 
 func (e *Env) Close() {
